@@ -193,6 +193,8 @@ def rel_c06(prog):
     out["variants"].append(("propagate_weights", _eval(src, formula_opts={"propagate_weights": SemiringProbability()})))
     out["variants"].append(("propagate_evidence+weights", _eval(src, formula_opts={"propagate_weights": SemiringProbability()},
                                                               ground_opts={"propagate_evidence": True})))
+    out["variants"].append(("keep_all+propagate_weights", _eval(src, formula_opts={"keep_all": True,
+                                                                                  "propagate_weights": SemiringProbability()})))
     out["variants"].append(("log-space", _eval(src, semiring=SemiringLogProbability())))
     out["variants"].append(("propagate_weights-log-space", _eval(src, formula_opts={"propagate_weights": SemiringLogProbability()},
                                                               semiring=SemiringLogProbability())))
